@@ -3,13 +3,15 @@ import os, subprocess, time
 import mirparse, decls, vm as vmmod, models
 
 
-def dump_mir(repo_dir, out_path, target_dir):
+def dump_mir(repo_dir, out_path, target_dir, features=None):
     """regenerate the MIR dump from the (scratch copy of the) repository's current source"""
     subprocess.check_call(["touch", os.path.join(repo_dir, "src", "lib.rs")])
     env = dict(os.environ)
     env["CARGO_NET_OFFLINE"] = "true"
     env.pop("RUSTFLAGS", None)
-    cmd = ["cargo", "+nightly", "rustc", "--offline", "--lib", "--no-default-features", "--target-dir", target_dir, "--",
+    # features=None: the library without the Python bindings; "python": the default feature set (pyo3 wrappers included)
+    feat = [] if features == "python" else ["--no-default-features"]
+    cmd = ["cargo", "+nightly", "rustc", "--offline", "--lib"] + feat + ["--target-dir", target_dir, "--",
            "-Zunpretty=mir", "-Zmir-opt-level=0", "-C", "opt-level=0", "-C", "debug-assertions=off", "-C", "overflow-checks=on"]
     with open(out_path, "w") as out:
         p = subprocess.run(cmd, cwd=repo_dir, env=env, stdout=out, stderr=subprocess.PIPE, text=True)
